@@ -33,7 +33,7 @@ LEVEL_TEXT = (
     "generated-input search is the fitting level; no bound is closed."
 )
 
-PROFILE = genir.Profile(name="c02", constexpr_pct=4, spin_cycle_pct=5)
+PROFILE = genir.Profile(name="c02", constexpr_pct=4, spin_cycle_pct=5, loop_local_pct=6, dup_args_pct=20)
 FUEL = 6000
 
 
